@@ -390,6 +390,29 @@ def r2(ck, F, name, exp, car):
             extra = sorted(set(ms["fields"]) - set(exp["fields"]))
             missing = sorted(set(exp["fields"]) - set(ms["fields"]))
             problems.append("fields %s; unexpected %s missing %s (skipped parameters must be absent, others present once)" % (ms["fields"], extra, missing))
+    # a parameter of a value type (integers, bool, str/String, NonZero*, Wrapping) is recorded as that value, whatever way
+    # its type is spelled; only other types go through `field::debug`. (ret/err values are not parameters.)
+    VALUE_TY = __import__("re").compile(r"^&*(mut )?(bool|str|[ui](8|16|32|64|128|size)|f32|f64|alloc::string::String|core::num::(nonzero::)?NonZero.*|core::num::(wrapping::)?Wrapping<.*>)$")
+    dbg_values = []
+    for b in bodies:
+        for bb, t in b.calls():
+            if t["callee"].get("path") != "tracing_core::field::debug" or not t["argv"]:
+                continue
+            ty = (t["callee"].get("targs") or [""])[0]
+            inner = ty
+            while inner.startswith("&"):
+                inner = inner[1:].lstrip()
+                if inner.startswith("mut "):
+                    inner = inner[4:]
+            o = b.origin(t["argv"][0])
+            from_param = o[0] == "arg"
+            if VALUE_TY.match(inner) and from_param:
+                dbg_values.append(inner)
+    # (identifiers bound by a destructuring pattern are documented to be recorded with Debug whatever their type: the
+    # corpus says how many such bindings a fixture has)
+    if len(dbg_values) != exp.get("debug_value_bindings", 0):
+        problems.append("%d value-typed parameter(s) recorded through field::debug as a Debug string (%s); the fixture has %d destructured binding(s), "
+                        "the only value-typed ones that may be" % (len(dbg_values), sorted(set(dbg_values)), exp.get("debug_value_bindings", 0)))
     # construction sites
     cons = [(b, bb, SPAN_NEW[t["callee"]["path"]]) for b in bodies for bb, t in b.calls() if t["callee"].get("path") in SPAN_NEW]
     if len(cons) != 1 or cons[0][0] is not car:
